@@ -160,6 +160,25 @@ func (ip *Inode) FreeInode(atxn *alloctxn.AllocTxn) {
 	atxn.FreeINum(ip.Inum)
 }
 
+// zeroTail clears the bytes of the block holding offset sz from sz to the end
+// of that block, so that they read as zero if the file grows again.
+func (ip *Inode) zeroTail(atxn *alloctxn.AllocTxn, sz uint64) {
+	byteoff := sz % disk.BlockSize
+	if byteoff == 0 {
+		return
+	}
+	blkno, alloc := ip.bmap(atxn, sz/disk.BlockSize)
+	if blkno == common.NULLBNUM || alloc {
+		// a block just allocated for a hole is all zero already
+		return
+	}
+	buf := atxn.ReadBlock(blkno)
+	for b := byteoff; b < disk.BlockSize; b++ {
+		buf.Data[b] = 0
+	}
+	buf.SetDirty()
+}
+
 // Resize updates the inode, but may not free immediately if the inode
 // shrinks. It creates a new thread to free blocks in a separate
 // transaction, if shrinking involves freeing many blocks.  ShrinkSize
@@ -173,6 +192,9 @@ func (ip *Inode) Resize(atxn *alloctxn.AllocTxn, sz uint64) bool {
 		oldsz = ip.ShrinkSize
 	}
 	util.DPrintf(5, "Resize %v to sz %d\n", oldsz, newSz)
+	if sz < ip.Size {
+		ip.zeroTail(atxn, sz)
+	}
 	ip.Size = newSz
 	newSz = util.RoundUp(sz, disk.BlockSize)
 	if newSz < oldsz {
